@@ -55,14 +55,49 @@ def run(ctx):
   ok = pm.write_sorts_events()
   ctx.ob('ORD/pm-write-sorts', w, 'PrettyMIDI.write', ok, 'installed PrettyMIDI.write sorts events (bag accumulation into pm lists is order-insensitive)' if ok else
          'installed PrettyMIDI.write does not sort: accumulation order would reach the file', construct='PrettyMIDI.write sorts')
+  order(ctx, w0)       # the generic order analysis first: it needs no anchor, so a reshaped accumulation is still judged
+  file_writer(ctx)
   groups(ctx, w, pm)
   fresh(ctx, w)
-  order(ctx, w0)
   ctors(ctx, w, pm)
   fields(ctx, w, r)
   layout(ctx, r)
   minor(ctx, w, r)
   tempo(ctx, w)
+
+
+def file_writer(ctx):
+  """note_sequence_to_midi_file writes exactly the object built by note_sequence_to_pretty_midi: nothing
+  reachable from that object is stored into between the conversion and the write (no clamping, filtering, re-timing)."""
+  fi = ctx.func('midi_io:note_sequence_to_midi_file')
+  conv = [st for st in U.walk_stmts(fi.node) if isinstance(st, ast.Assign) and isinstance(st.value, ast.Call) and dotted(st.value.func) == 'note_sequence_to_pretty_midi' and
+          isinstance(st.targets[0], ast.Name)]
+  ctx.require(len(conv) == 1, 'note_sequence_to_midi_file: the conversion call was not found')
+  pmname = conv[0].targets[0].id
+  derived = {pmname}
+  for _ in range(4):
+    for st in U.walk_stmts(fi.node):
+      if isinstance(st, ast.For) and any(isinstance(n, ast.Name) and n.id in derived for n in ast.walk(st.iter)):
+        derived |= set(n.id for n in ast.walk(st.target) if isinstance(n, ast.Name))
+      if isinstance(st, ast.Assign) and isinstance(st.targets[0], ast.Name) and any(isinstance(n, ast.Name) and n.id in derived for n in ast.walk(st.value)) and st is not conv[0]:
+        derived.add(st.targets[0].id)
+  bad = []
+  for st in U.walk_stmts(fi.node):
+    for tgt, _v, _o in U.store_targets(st):
+      if isinstance(tgt, (ast.Attribute, ast.Subscript)):
+        b = tgt
+        while isinstance(b, (ast.Attribute, ast.Subscript)):
+          b = b.value
+        if isinstance(b, ast.Name) and b.id in derived:
+          bad.append(st)
+    if isinstance(st, ast.Delete) and any(isinstance(n, ast.Name) and n.id in derived for t in st.targets for n in ast.walk(t)):
+      bad.append(st)
+  writes = [c for c in U.calls_in(fi.node) if isinstance(c.func, ast.Attribute) and c.func.attr == 'write' and norm_text(c.func.value) == pmname]
+  ok = not bad and len(writes) == 1
+  ctx.ob('FILE/writes-converted-object', fi, bad[0] if bad else (writes[0] if writes else fi.node), ok,
+         'the file variant writes the converted PrettyMIDI object unmodified' if ok else
+         ('the file variant changes the converted object before writing it (%s): the file differs from the in-memory conversion' % norm_text(bad[0])[:90] if bad else
+          'the converted object is not written exactly once'), construct='note_sequence_to_midi_file: write(convert(sequence))')
 
 
 def _acc_loops(w):
@@ -383,6 +418,11 @@ def tempo(ctx, w):
 
 
 MUTANTS = [
+    Mutant('seed C03_e: pitch bends clamped to +-8191 in the file writer only', F, "  pretty_midi_object.write(open(output_file, 'wb'))", "  for instrument in pretty_midi_object.instruments:\n    for bend in instrument.pitch_bends:\n      bend.pitch = max(-8191, min(8191, bend.pitch))\n  pretty_midi_object.write(open(output_file, 'wb'))", rule='FILE/writes-converted-object'),
+    Mutant('file closed with a with-statement (harmless)', F, "  pretty_midi_object.write(open(output_file, 'wb'))", "  with open(output_file, 'wb') as f:\n    pretty_midi_object.write(f)", expect='silent'),
+    Mutant('seed C03_d: notes grouped with itertools.groupby (only adjacent runs, later runs overwrite)', F,
+           "  for seq_note in sequence.notes:\n    instrument_events[(seq_note.instrument, seq_note.program,\n                       seq_note.is_drum)]['notes'].append(\n                           pretty_midi.Note(\n                               seq_note.velocity, seq_note.pitch,\n                               seq_note.start_time, seq_note.end_time))\n",
+           "  import itertools\n  for instrument_key, seq_notes in itertools.groupby(\n      sequence.notes, key=lambda n: (n.instrument, n.program, n.is_drum)):\n    instrument_events[instrument_key]['notes'] = [\n        pretty_midi.Note(seq_note.velocity, seq_note.pitch,\n                         seq_note.start_time, seq_note.end_time)\n        for seq_note in seq_notes]\n", rule='ORD/traversal'),
     Mutant('seed C03_b: the reused placeholder instrument keeps is_drum=False', F, "      placeholder_used = True\n      instrument.is_drum = is_drum\n", "      placeholder_used = True\n", rule='GROUP/key-fields'),
     Mutant('bends grouped without the drum flag', F, "    instrument_events[(seq_bend.instrument, seq_bend.program,\n                       seq_bend.is_drum)]['bends'].append(", "    instrument_events[(seq_bend.instrument, seq_bend.program,\n                       False)]['bends'].append(", rule='GROUP/key'),
     Mutant('controls accumulate under the bends slot', F, "seq_cc.is_drum)]['controls'].append(", "seq_cc.is_drum)]['bends'].append(", rule='GROUP/'),
